@@ -456,8 +456,103 @@ def nontrivial(r: CaseResult) -> bool:
     return ok
 
 
+# --------------------------------------------------------------------------------------
+# enlarged search only: lengths at which a narrowed length counter shows (>= 2^29 bytes)
+# --------------------------------------------------------------------------------------
+
+LONG_RULE = ("message = the 1 MiB block expand_pattern(2^20, seed) (LCG x <- x*1664525+1013904223 mod 2^32, byte = x>>24) repeated "
+             "and cut to <len> bytes; harness op `shagen <len> <seed> <chunk>` streams it into one Sha256 object in <chunk>-byte "
+             "update() calls; reference = Python hashlib.sha256 fed the same bytes")
+LONG_NOTE = ("At this size the Lean specification Spec.sha256 cannot be evaluated (List UInt8: >= 12 GB, minutes), so the reference "
+             "digest is hashlib's SHA-256 standing in for it, used only to exhibit a failing input. That the property is no longer "
+             "shown comes from the broken proof obligation (see 'theorem'), not from this comparison.")
+LONG_SIG = "sha-digest-long-message"
+
+
+def long_reference(n: int, seed: int) -> str:
+    block = expand_pattern(1 << 20, seed)
+    h = hashlib.sha256()
+    full, rest = divmod(n, len(block))
+    for _ in range(full):
+        h.update(block)
+    h.update(block[:rest])
+    return h.hexdigest()
+
+
+def long_run(hbin, work, n: int, seed: int, chunk: int):
+    """-> (op, impl line, reference digest)"""
+    op = f"shagen {n} {seed} {chunk}"
+    res = run_harness(hbin, [Case(ops=[op], cid="long")], work, timeout=600.0, per_case_timeout=600.0)
+    lines, crashed = res.get("long", ([], "not-run"))
+    impl = lines[0] if lines else "crash:" + (crashed or "no output").split("\n", 1)[0]
+    return op, impl, long_reference(n, seed)
+
+
+def long_search(ctx, why: str) -> None:
+    """Runs only when an obligation or the correspondence is already broken."""
+    try:
+        vals = dict(re.findall(r"def (bitLenBits|bitLenCastBits) : Nat := (\d+)",
+                               (LEAN / "EphVerif" / "Generated" / "C08.lean").read_text()))
+        w, wc = int(vals.get("bitLenBits", 64)), int(vals.get("bitLenCastBits", 64))
+        hbin = harness()
+    except Exception as ex:
+        ctx.notes.append(f"long-message search not run: {ex}")
+        return
+    mib = 1 << 20
+    plan = []                                   # (length, chunk)
+    for width, single in ((w, False), (wc, True)):
+        if 3 < width < 64 and (1 << (width - 3)) <= (1 << 31):
+            n = 1 << (width - 3)
+            plan += [(n, n if single else mib), (n + 1, n + 1 if single else mib)]
+    plan += [(1 << 29, mib), ((1 << 29) + 1, mib)]
+    seen, t0 = set(), time.time()
+    for n, chunk in sorted(set(plan)):
+        if (n, chunk) in seen or time.time() - t0 > 240:
+            continue
+        seen.add((n, chunk))
+        seed = ctx.rng.getrandbits(31)
+        op, impl, ref = long_run(hbin, ctx.work, n, seed, chunk)
+        ctx.hist("long-search:" + ("agree" if impl == ref else "differ"))
+        ctx.coverage["evaluations"] += 1
+        if impl != ref:
+            thm = []
+            try:                                  # name what no longer checks (the failed module is re-attempted: seconds)
+                ok, log = lake_build(["EphVerif.Proofs.C08"])
+                thm = [] if ok else failing_theorems(log, [])
+            except Exception:
+                pass
+            ctx.report(LONG_SIG, "failing-input",
+                       {"ops": [op], "impl_out": [impl], "reference_out": [ref], "model_out": ["(not evaluated at this size)"],
+                        "generator_rule": LONG_RULE, "length_bytes": n, "seed_of_message": seed, "update_chunk_bytes": chunk,
+                        "reference": "python hashlib.sha256 (stand-in for the Lean spec Spec.Sha256 at this size)",
+                        "note": LONG_NOTE, "search_trigger": why, "theorem": thm,
+                        "monitor": f"op 0: digest of the {n}-byte generated message is {impl}, SHA-256 of those bytes is {ref}"},
+                       found_input=True)
+            return
+    ctx.notes.append(f"long-message search ({why}): {len(seen)} generated messages up to {max(n for n, _ in seen)} bytes agree with hashlib")
+
+
+def long_replay(path: str) -> int:
+    doc = json.loads(Path(path).read_text())
+    hbin = harness()
+    work = BUILD / "tmp" / f"{PID}-replay-{os.getpid()}"
+    work.mkdir(parents=True, exist_ok=True)
+    try:
+        op, impl, ref = long_run(hbin, work, int(doc["length_bytes"]), int(doc["seed_of_message"]), int(doc["update_chunk_bytes"]))
+    finally:
+        shutil.rmtree(work, ignore_errors=True)
+    print(f"  0 op    {op}\n    rule  {LONG_RULE}\n    impl  {impl}\n    ref   {ref}   (hashlib.sha256, standing in for Spec.Sha256 at this size)")
+    bad = impl != ref
+    print("REPRODUCED" if bad else "not reproduced")
+    return 1 if bad else 0
+
+
 def post(ctx, results):
     """outcome histogram: message-length classes, key-length classes, verify outcomes"""
+    broken = ctx.coverage.get("discharged", 0) < ctx.coverage.get("obligations", 0)
+    diverged = any(r.diverges for r in results)
+    if (broken or diverged) and not any(v["found_input"] for v in ctx.violations):
+        long_search(ctx, "broken proof obligation" if broken else "model/implementation divergence")
     for r in results:
         for op, o in zip(r.case.ops, r.impl):
             t = op.split(" ")
@@ -507,4 +602,10 @@ def spec() -> Spec:
 
 
 def run(tier, seed, replay=None):
+    if replay and replay.endswith(".json"):
+        try:
+            if json.loads(Path(replay).read_text()).get("signature") == LONG_SIG:
+                return long_replay(replay)
+        except (OSError, ValueError):
+            pass
     return standard_check(spec(), tier, seed, replay)
